@@ -12,7 +12,7 @@ import shutil
 import struct
 import tempfile
 import zlib
-from binascii import hexlify
+from binascii import hexlify, unhexlify
 
 import lbry.wallet  # noqa: F401  (import order, see DESIGN 2.3)
 from lbry.wallet.header import Headers, InvalidHeader
@@ -53,6 +53,33 @@ def pow_value(raw):
 
 
 ORACLES = {'sha256': sha256, 'sha512': sha512, 'ripemd160': rmd160}
+
+
+def pow_of(cfg, raw):
+    """proof-of-work value of a header under a configuration: cfg['pow_stub'] (header hash -> 32-byte PoW hash) replaces
+    the PoW hash function for chosen headers -- the model's theorems hold for every function in that place, so the
+    boundary pow == target / target + 1 can be exercised without 2^24 mining attempts"""
+    stub = cfg.get('pow_stub')
+    if stub:
+        v = stub.get(dsha(raw).hex())
+        if v is not None:
+            return int.from_bytes(bytes.fromhex(v), 'little')
+    return pow_value(raw)
+
+
+def stub_oracles(cfg):
+    """the same replacement on the model side: sha256 answers the stubbed value for the last inner digest of
+    pow_hash(header hash)"""
+    stub = cfg.get('pow_stub')
+    if not stub:
+        return ORACLES
+    table = {}
+    for hh, v in stub.items():
+        h5 = sha512(bytes.fromhex(hh))
+        table[sha256(rmd160(h5[:32]) + rmd160(h5[32:]))] = bytes.fromhex(v)
+    o = dict(ORACLES)
+    o['sha256'] = lambda b: table[b] if b in table else sha256(b)
+    return o
 
 
 # ------------------------------------------------------------------------------------------------
@@ -104,7 +131,7 @@ def ref_check(cfg, pp, p, x):
         t = ref_next_target(cfg['max_target'], pp, p)
         if fields(x)[1] != ref_compact(t):
             return 'bits'
-        if pow_value(x) > t:
+        if pow_of(cfg, x) > t:          # full 256-bit integers
             return 'pow'
     return None
 
@@ -158,6 +185,14 @@ def make_class(cfg):
         checkpoints = {h: disp(x).decode() for h, x in cfg['checkpoints']}
         why = None
         writes = 0
+        pow_stub = dict(cfg.get('pow_stub') or {})
+
+        @staticmethod
+        def header_hash_to_pow_hash(header_hash):
+            v = H.pow_stub.get(unhexlify(header_hash)[::-1].hex()) if H.pow_stub else None
+            if v is not None:
+                return hexlify(bytes.fromhex(v)[::-1])
+            return Headers.header_hash_to_pow_hash(header_hash)
 
         def validate_header(self, height, current_hash, header, previous_hash, target):
             try:
@@ -547,6 +582,8 @@ class Miner:
         while True:
             raw = pack(ver, prev, merkle, claim, ts, bits & 0xffffffff, nonce)
             self.tries += 1
+            if self.tries > 5000000:
+                raise RuntimeError('mining budget exhausted (target too hard for the harness)')
             good = (not cfg['vd']) or pow_value(raw) <= t
             if good != want_pow_fail:
                 return raw
@@ -677,7 +714,11 @@ class History:
                                signature={'case_sha1': hashlib.sha1(vlib.canon(case).encode()).hexdigest()})
             self.run.count('monitor:violation')
             return False
-        mod = self.model.call('run', cfg=case['cfg'], file=case['file'], ops=self.ops)
+        self.model.oracles = stub_oracles(self.cfg)
+        try:
+            mod = self.model.call('run', cfg=case['cfg'], file=case['file'], ops=self.ops)
+        finally:
+            self.model.oracles = ORACLES
         return self.run.compare('C07.run/' + self.kind, case, self.results, mod)
 
 
@@ -922,6 +963,57 @@ def gen_checkpoints(run, model, rng, two, box=None):
         h.do({'op': 'patchfile', 'off': rng.randrange(0, nchunks * CHUNK * HS - 4), 'data': rng.randbytes(4).hex()})
     h.do({'op': 'open', 'io': False})
     h.do({'op': 'close'})
+    return h.finish()
+
+
+def compact_band(t):
+    """[lo, hi): the 256-bit values that share the compact encoding of t"""
+    c = ref_compact(t)
+    sh = 8 * max(0, (c >> 24) - 3)
+    lo = (t >> sh) << sh
+    return lo, lo + (1 << sh)
+
+
+@guarded
+def gen_pow_boundary(run, model, rng, box=None):
+    """headers valid in every way whose proof-of-work value is placed (by replacing the PoW hash for exactly those
+    headers) at the target, one above it, one below it, at the top of the band of values that round to the same
+    compact bits, at the next compact step, at 0 and at 2^256-1; each offered alone and inside a batch followed by
+    a header built on top of it"""
+    cfg = easy_cfg(rng)
+    miner = Miner(rng, cfg)
+    main = miner.extend([miner.genesis()], rng.randrange(2, 7))
+    cfg = with_genesis(cfg, main)
+    miner.cfg = cfg
+    t = miner.target_for(main)
+    lo, hi = compact_band(t)
+    values = [('target', t), ('target+1', t + 1), ('target-1', max(0, t - 1)), ('band-top', hi - 1),
+              ('next-step', min(M256 - 1, hi)), ('band-mid', rng.randrange(t + 1, hi) if hi > t + 1 else t + 1),
+              ('zero', 0), ('max', M256 - 1), ('below', rng.randrange(0, t + 1))]
+    rng.shuffle(values)
+    values = values[:rng.randrange(4, len(values) + 1)]
+    cands, stub = [], {}
+    for name, v in values:
+        x = miner.header(main, delta=rng.choice([150, 150, 100, 300]))
+        stub[dsha(x).hex()] = v.to_bytes(32, 'little').hex()
+        cands.append((name, v, x))
+    cfg = dict(cfg)
+    cfg['pow_stub'] = stub
+    miner.cfg = cfg
+    h = History(run, model, cfg, None, 'pow-boundary', box)
+    h.do({'op': 'open'})
+    n = len(main)
+    h.connect(0, main)
+    for name, v, x in cands:
+        run.count('pow-boundary:' + name)
+        follow = miner.header(main + [x])
+        c = rng.random()
+        if c < 0.4:
+            h.connect(n, [x])
+        elif c < 0.8:
+            h.connect(n, [x, follow])
+        else:
+            h.connect(n - 1, [main[-1], x, follow])
     return h.finish()
 
 
@@ -1280,7 +1372,10 @@ def main(run):
         'horizon; 1 and 2 checkpointed chunks fetched with wrong / truncated / right content; lookups (get / hash / '
         'get_raw_header / ensure_chunk_at) with a chunk getter installed at stored heights, above the tip, in all-zero '
         'slots and in checkpointed ranges while the server answers with junk, a linked but unvalidated chunk, our own '
-        'headers, a valid continuation, nothing or a misaligned blob. distinct = distinct '
+        'headers, a valid continuation, nothing or a misaligned blob; otherwise valid headers whose proof-of-work value '
+        'sits at target, target+-1, inside / at the top of / just past the band that rounds to the same compact bits '
+        '(PoW hash replaced for exactly those headers on both sides; one such header pre-mined with the real hash is in '
+        'the corpus). distinct = distinct '
         'full case (config, file, op list); non-trivial = more than one operation or a non-zero pure input.')
 
     # corpus first
@@ -1368,6 +1463,10 @@ def main(run):
         gen_big_reopen(run, model, rng, n, damage)
     for i in range(vlib.scaled(T, 2, 12)):
         gen_checkpoints(run, model, rng, two=bool(i % 2))
+
+    # ---- proof of work exactly at / just above the target
+    for _ in range(vlib.scaled(T, 25, 400)):
+        gen_pow_boundary(run, model, rng)
 
     # ---- lookups while a chunk getter is installed
     for _ in range(vlib.scaled(T, 40, 600)):
